@@ -167,6 +167,7 @@ class RepoInterp:
                 x = obj.v[key.v]
             except IndexError:
                 st.effects.append(("IndexError", norm(node)))
+                st.pending = st.pending or "IndexError"
                 return U("IndexError")
             return x if isinstance(x, V) else K(x)
         return platform_subscript(obj, key)
@@ -179,10 +180,20 @@ class RepoInterp:
         v = platform_call(fname, fval, call, args, kwargs)
         if v is not None:
             return v
-        callee = self.repo.resolve_callee(self.cur_fi, call)
+        callee = self.resolve(call)
         if callee is not None and (callee.fq in self.inline or callee.qualname in self.inline):
             return self.inline_call(callee, call, fval, args, kwargs, st)
         return None
+
+    self_class: Any = None  # dynamic class of `self` in the scenario (method resolution starts there)
+
+    def resolve(self, call: ast.Call) -> Optional[FunctionInfo]:
+        f = call.func
+        if self.self_class is not None and isinstance(f, ast.Attribute) and isinstance(f.value, ast.Name) and f.value.id == "self":
+            m = self.repo.method(self.self_class, f.attr)
+            if m is not None:
+                return m
+        return self.repo.resolve_callee(self.cur_fi, call)
 
     def inline_call(self, callee: FunctionInfo, call: ast.Call, fval: Optional[V], args: List[V], kwargs: Dict[str, V], st: State) -> V:
         if self.depth >= self.max_depth:
@@ -224,6 +235,8 @@ class RepoInterp:
                 vals.append(K(None))
             else:
                 vals.append(U("raises"))
+                if o.term[0] == "raise" and len(outs) == 1:
+                    st.pending = st.pending or str(o.term[1])  # the exception propagates into the caller
         if len(outs) > 1:
             # the callee forked: keep one representative only when all outcomes agree
             if all(v == vals[0] for v in vals) and all(o.effects == outs[0].effects for o in outs):
